@@ -6,7 +6,11 @@ template sets are rendered by TLC and by real jinja2.
 """
 from __future__ import annotations
 
+import copy
+from concurrent.futures import ProcessPoolExecutor
+
 from .. import core, jgen, jrun
+from .. import jast as J
 
 
 def fingerprint(m, case):
@@ -14,6 +18,59 @@ def fingerprint(m, case):
 
 
 VARIANTS = [{"label": "default"}, {"label": "unoptimized", "opts": {"optimized": False}}]
+
+
+def _twice(args):
+    """Render the main template, fetch it again from the same environment with other template-level globals and
+    render again: an imported template's macros must see the importer's current globals both times."""
+    core.use_repo()
+    out = []
+    for case, obs in args:
+        env, srcs = jrun.make_env(case)
+        for di in range(1, len(case["datas"]) + 1):
+            for npass, key in ((1, "tglobals"), (2, "tglobals2")):
+                tg = {k: J.to_py(v, case["objs"], [], {}) for k, v in case[key].items()}
+                data = {k: J.to_py(v, case["objs"], [], {}) for k, v in case["datas"][di - 1].items()}
+                try:
+                    real = {"out": env.get_template(case["main"], globals=tg).render(**data), "err": ""}
+                except Exception as e:  # noqa
+                    name = type(e).__name__
+                    for klass in type(e).__mro__:
+                        if klass.__name__ in J.ERRCLASS:
+                            name = J.ERRCLASS[klass.__name__]
+                            break
+                    real = {"out": None, "err": name, "exc": repr(e)[:200]}
+                o = obs.get((case["id"], di if npass == 1 else 1000 + di))
+                if o is None:
+                    continue
+                m = jrun.compare(o, real)
+                if m is not None:
+                    out.append({"case": case, "d": di, "pass": npass, "what": m, "src": srcs[case["main"]][:300]})
+    return out
+
+
+def two_pass(ck, cases, name):
+    """Cases with template-level globals, rendered twice in one environment with different values."""
+    tg = []
+    for c in cases:
+        if c.get("tglobals"):
+            c2 = copy.deepcopy(c)
+            c2["cfg"]["rerender"] = True
+            c2["tglobals2"] = {k: J.vstr("T2&") for k in c["tglobals"]}
+            tg.append(c2)
+    if not tg:
+        return
+    obs, r = jrun.spec_results("C05", tg, name=name, timeout=3000)
+    ck.add_tlc(r, f"Jinja.tla two renders with different template-level globals ({len(tg)} template sets)")
+    jobs = [[(c, {k: v for k, v in obs.items() if k[0] == c["id"]}) for c in chunk] for chunk in core.chunks(tg, 20)]
+    with ProcessPoolExecutor(max_workers=12) as ex:
+        for res in ex.map(_twice, jobs):
+            for m in res:
+                ck.violation({"kind": "two-pass", "case": m["case"], "d": m["d"], "pass": m["pass"]},
+                             f"[render #{m['pass']} with template globals #{m['pass']}] case {m['case']['id']} data#{m['d']}: {m['what']} :: {m['src']!r}",
+                             {"kind": "render-mismatch", "variant": "second-render-other-template-globals"})
+    ck.evaluations += 2 * sum(len(c["datas"]) for c in tg)
+    ck.extra["two_pass_template_sets"] = ck.extra.get("two_pass_template_sets", 0) + len(tg)
 
 
 def run(ck):
@@ -24,10 +81,11 @@ def run(ck):
         obs, r = jrun.spec_results("C05", batch, name=f"b{bi}", timeout=3000)
         ck.add_tlc(r, f"Jinja.tla include-import batch {bi} ({len(batch)} template_sets)")
         jrun.conformance(ck, batch, obs, VARIANTS, fingerprint)
+        two_pass(ck, batch, f"b{bi}_twice")
     ck.extra["template_sets"] = len(cases)
     ck.exhaustive = False
     ck.extra["excluded_shapes"] = ["from-import of underscore names (compile-time error by design)",
-                                   "Template objects passed as include targets", "template-level globals"]
+                                   "Template objects passed as include targets"]
 
 
 def replay(ck, rec):
